@@ -460,8 +460,10 @@ def stage_direct(ctx, pq, w):
             want, got = cmp_direct(m, res, len(rows))
         ctx.correspondence("run_v%d ~ _assemble_objects call sequence (read_col / read_data_page_v2 shape)" % v, case, want, got)
         if classes:
-            # tightness of the theorem's guard (information, not an obligation): outside it the model is wrong
-            ctx.count("seq.model_outside_guard", "wrong rows or fault" if (m[0] != "ok" or m_rows_back(m[1]) != want_rows) else "rows")
+            # the guard is exact (C15_pages_exact): outside it the model never returns the rows
+            ctx.count("seq.model_outside_guard", "wrong rows" if m[0] == "ok" else "fault:" + str(m[1]))
+            ctx.correspondence("model outside the guard never returns the rows (instance of C15_pages_exact)", case,
+                               (m[0] == "ok" and m_rows_back(m[1]) == want_rows), False)
         # theorem instance: on a good split the model returns the rows
         if not classes:
             ctx.correspondence("model on a good split = rows (instance of C15_pages_partial)", case,
